@@ -1,3 +1,4 @@
+import os
 """C13 - initial-conditions file write/read round trip.
 
 The REAL t2incon.write / t2incon.read (reloaded from /repo) run on an
@@ -34,15 +35,20 @@ def fit_real(c, name, kind, w, p, lo=None, hi=None):
     return v
 
 
-def sym_blockname(c, base):
+def sym_blockname(c, base, free=False):
     """5 symbolic characters satisfying valid_blockname, over letters/digits/blank
-    (what the four naming conventions can produce)."""
+    (what the four naming conventions can produce).  free: a free-form TOUGH2
+    element name instead (a letter in the 4th column, e.g. 'WELL1'), which
+    valid_blockname rejects and which is read with check_blocknames = False."""
     cells = []
     for k in range(5):
         e = z3.Int('%s.%d' % (base, k))
         dig = z3.And(e >= 48, e <= 57)
         let = z3.Or(z3.And(e >= 65, e <= 90), z3.And(e >= 97, e <= 122))
-        if k < 3: c.add(z3.Or(dig, let, e == 32))
+        if free and k == 0: c.add(let)
+        elif free and k == 3: c.add(let)
+        elif free and k == 4: c.add(z3.Or(dig, let))
+        elif k < 3: c.add(z3.Or(dig, let, e == 32))
         elif k == 3: c.add(z3.Or(dig, e == 32))
         else: c.add(dig)
         cells.append(SChar(e))
@@ -99,12 +105,13 @@ def _witness(m, shape, names, data, tm):
     return dict(shape=shape, blocks=blocks, timing=t)
 
 
-def task_shape(nblocks, nvars, por, perm, seq, timing, reset, cycles=2, toughreact=None, second=0, seed=0):
+def task_shape(nblocks, nvars, por, perm, seq, timing, reset, cycles=2, toughreact=None, second=0, seed=0, freenames=False):
     ld, fs = _load()
     T = ld.t2incons
     np_ = ld.mulgrids.np
     failures, samples, distinct = [], [], set()
-    shape = dict(nblocks=nblocks, nvars=nvars, por=por, perm=perm, seq=seq, timing=timing, reset=reset, toughreact=toughreact)
+    shape = dict(nblocks=nblocks, nvars=nvars, por=por, perm=perm, seq=seq, timing=timing, reset=reset, toughreact=toughreact, freenames=freenames)
+    rkw = dict(check_blocknames=False) if freenames else {}
     tag = ('R.' if (toughreact and not (any(perm) if isinstance(perm, (list, tuple)) else perm)) else '') + 'b%d.v%d.%s%s%s.%s%s' % (nblocks, nvars, 'P' if por else 'p', ('K' if perm else 'k') if not isinstance(perm, (list, tuple)) else 'K' + ''.join('1' if x else '0' for x in perm), 'S' if seq else 's',
                                    'T' if timing else 't', 'R' if reset else 'r')
 
@@ -116,7 +123,7 @@ def task_shape(nblocks, nvars, por, perm, seq, timing, reset, cycles=2, toughrea
         if tr_flavour: inc.simulator = 'TOUGHREACT'
         names, data = [], []
         for b in range(nblocks):
-            nm = sym_blockname(c, 'n%d' % b)
+            nm = sym_blockname(c, 'n%d' % b, freenames)
             for prev in names:
                 c.add(z3.Not(same_codes(print_form(codes_of(nm)), print_form(codes_of(prev)))))
             names.append(nm)
@@ -152,7 +159,7 @@ def task_shape(nblocks, nvars, por, perm, seq, timing, reset, cycles=2, toughrea
         nv = nvars if nvars > 4 else None
         try:
             inc.write('f1', reset)
-            inc2 = T.t2incon('f1', num_variables=nv)
+            inc2 = T.t2incon('f1', num_variables=nv, **rkw)
         except Exception as ex:
             # a write or read that raises on a valid set of initial conditions
             r, m = c.reachable()
@@ -254,7 +261,7 @@ def task_shape(nblocks, nvars, por, perm, seq, timing, reset, cycles=2, toughrea
                     failures[-1]['what'] = 'long header prints the time with 6 decimals, the timing record with 9: after a read the header of the next write can differ in its last digit'
             ob(lines_equal(f1[1:], f2[1:]), 'rewrite: every other line of the second write equals the first cell for cell', None)
         if cycles >= 3:
-            inc3 = T.t2incon('f2', num_variables=nv)
+            inc3 = T.t2incon('f2', num_variables=nv, **rkw)
             ok = inc3.num_blocks == nblocks
             ob(ok, 'cycle: third object has the same blocks', None)
             if ok:
@@ -289,6 +296,8 @@ def shapes(tier):
             dict(nblocks=1, nvars=2, por=True, perm=False, seq=True, timing=False, reset=True, toughreact=True),
             # a TOUGHREACT set in which only some blocks carry permeabilities (the last one does not)
             dict(nblocks=2, nvars=2, por=True, perm=[True, False], seq=False, timing=True, reset=False),
+            # free-form element names ('WELL1'), read with the constructor option check_blocknames = False
+            dict(nblocks=2, nvars=2, por=True, perm=False, seq=True, timing=False, reset=True, freenames=True),
         ]
         return combos
     for nb in (0, 1, 2, 3):
@@ -306,6 +315,9 @@ def shapes(tier):
 def run(tier, seed, rep):
     _load()
     sh = shapes(tier)
+    if os.environ.get('C13_ONLY'):      # development aid: 'b1.v4' style filter on nblocks / nvars
+        nb_, nv_ = os.environ['C13_ONLY'].split(',')
+        sh = [s for s in sh if s['nblocks'] == int(nb_) and s['nvars'] == int(nv_)]
     tasks = [(task_shape, dict(s, second=150, seed=seed) if tier == 'thorough' else s) for s in sh]
     # long tasks first
     tasks.sort(key=lambda t: -(t[1]['nblocks'] * 10 + t[1]['nvars']))
